@@ -49,8 +49,12 @@ def evaluate(seed, patch, checks, outdir):
             res[c] = {"exit": rc, "seconds": round(time.time() - t), "violations": kinds}
             print(seed, c, "exit", rc, [k["line"] for k in kinds], flush=True)
         if outdir:
-            with open(os.path.join(outdir, "caught.json"), "w") as f:
-                json.dump(res, f, indent=1)
+            # merge: a partial re-run (some checks only) updates those entries and keeps the others
+            cp = os.path.join(outdir, "caught.json")
+            old = json.load(open(cp)) if os.path.exists(cp) else {}
+            old.update(res)
+            with open(cp, "w") as f:
+                json.dump(dict(sorted(old.items())), f, indent=1)
         return res
     finally:
         if os.environ.get("SEED_KEEP"):
